@@ -538,6 +538,34 @@ package core
 //@   ensures[C03,@empty-path-parameter] imp(result1 == nil, forallp(j, at(result0, j), imp(result0.off <= j && j < result0.off + len(result0), at(result0, j).parameter != "")))
 //@   ensures[C03,@duplicated-path-parameter] imp(result1 == nil, forallp(i, j, at(result0, i), at(result0, j), imp(result0.off <= i && i < j && j < result0.off + len(result0),
 //@       at(result0, i).parameter != at(result0, j).parameter)))
+// ---------------------------------------------------------------------------
+// Path bodies (C09, C05, C10): the schema registered for a Path directive is compiled from the bytes of THAT directive's
+// body - its file, its offsets. (A body at the same offsets of another file, or the body of another copy, is another
+// body: C09-6 reused a schema by "[begin:end]" alone.) gBody*: the bytes a path schema was read from (ghost).
+//@ ghost field jschema.JSchema.gBodyArr int
+//@ ghost field jschema.JSchema.gBodyOff int
+//@ ghost field jschema.JSchema.gBodyLen int
+//@ func newPathVariablesSchema(content, userTypes)
+//@   attr trusted
+//@   modifies nothing
+//@   ensures imp(result1 == nil, result0 != nil && fresh(result0) && result0.JSchema != nil && fresh(result0.JSchema)
+//@       && result0.JSchema.gBodyArr == content.data.arr && result0.JSchema.gBodyOff == content.data.off && result0.JSchema.gBodyLen == len(content.data))
+//@ func (*JApiCore).UserTypesData(core)
+//@   attr trusted
+//@   modifies nothing
+//@ func (*JApiCore).collectPathVariables(core, d)
+//@   property C09,C05,C10
+//@   attr assumesafe
+//@   requires core != nil && directive.dirOK(d) && d.BodyCoords.file != nil
+//@   requires d.BodyCoords.begin <= d.BodyCoords.end && d.BodyCoords.end < len(d.BodyCoords.file.content.data)
+//@   modifies core.rawPathVariables, core.rawPathVariables[:]
+//@   ensures[C09,C05,C10,@path-entry-appended] imp(result == nil, len(core.rawPathVariables) == old(len(core.rawPathVariables)) + 1
+//@       && core.rawPathVariables[len(core.rawPathVariables)-1].schema != nil)
+//@   ensures[C09,C05,C10,@path-schema-of-its-own-body] imp(result == nil,
+//@       core.rawPathVariables[len(core.rawPathVariables)-1].schema.gBodyArr == d.BodyCoords.file.content.data.arr
+//@       && core.rawPathVariables[len(core.rawPathVariables)-1].schema.gBodyOff == d.BodyCoords.file.content.data.off + d.BodyCoords.begin)
+//@   ensures[C09,C05,@path-entry-of-this-directive] imp(result == nil, core.rawPathVariables[len(core.rawPathVariables)-1].parent == d.Parent
+//@       && !core.rawPathVariables[len(core.rawPathVariables)-1].imitated)
 //@ func removeLastSegment(p)
 //@   property C01
 //@   modifies nothing
